@@ -233,10 +233,17 @@ func c10OptDoc() (string, error) {
 			if p >= 2 {
 				pg = append(pg, pdfdoc.Placed{X: 72, Y: 760, Size: 10, Text: "Quarterly Report"})
 			}
-			for k := 1; k <= 3; k++ {
-				pg = append(pg, pdfdoc.Placed{X: 72, Y: 640 - 18*k, Size: 11, Text: fmt.Sprintf("body text of the page b%dl%d", p, k)})
+			// page 3 is a real two-column page (12 lines in each column, enough for the automatic layout test to see it);
+			// the other pages have three body lines
+			const labels = "123456789abcdefghijklmnopqrstuvwxyz"
+			lines := 3
+			if p == 3 {
+				lines = 12
+			}
+			for k := 1; k <= lines; k++ {
+				pg = append(pg, pdfdoc.Placed{X: 72, Y: 640 - 18*k, Size: 11, Text: fmt.Sprintf("body text of the page b%dl%c", p, labels[k-1])})
 				if p == 3 {
-					pg = append(pg, pdfdoc.Placed{X: 340, Y: 640 - 18*k, Size: 11, Text: fmt.Sprintf("second column b%dl%d", p, k+3)})
+					pg = append(pg, pdfdoc.Placed{X: 340, Y: 640 - 18*k, Size: 11, Text: fmt.Sprintf("second column b%dl%c", p, labels[k+11])})
 				}
 			}
 			if p <= 4 {
@@ -279,7 +286,7 @@ func applyOpts(e *tabula.Extractor, opts []string) *tabula.Extractor {
 	return e
 }
 
-var optTokRe = regexp.MustCompile(`Quarterly Report|Page (\d)|b(\d)l\d`)
+var optTokRe = regexp.MustCompile(`Quarterly Report|Page (\d)|b(\d)l[0-9a-z]`)
 
 // tokens of a text, each with the page it belongs to
 func optTokens(s string) (toks []string, pages []int) {
